@@ -31,6 +31,14 @@ let same_multiset a b = List.sort compare a = List.sort compare b
 let minus_one = z_of_int (-1)
 let zeq a b = (match Z.compare a b with Eq -> true | _ -> false)
 
+(* the barcode depends only on the (skipped) normalised sequence: computed once for the Z / F / S lines of one sequence *)
+let memo : (string, bar list) Hashtbl.t = Hashtbl.create 64
+let barcode_memo key s =
+  match Hashtbl.find_opt memo key with
+  | Some b -> b
+  | None -> if Hashtbl.length memo > 2000 then Hashtbl.reset memo; let b = barcode s in Hashtbl.add memo key b; b
+let ops_part line = match String.index_opt line ';' with Some i -> String.sub line i (String.length line - i) | None -> ""
+
 let case_line line =
   match parse_case line with
   | None -> "BADLINE"
@@ -38,7 +46,7 @@ let case_line line =
     let dimmax = if mode = "S" then dimmax else minus_one in
     let s = normalize dimmax ops in
     let n = List.length s in
-    let bs = barcode s in
+    let bs = barcode_memo (zs dimmax ^ ops_part line) s in
     let steps = List.init n (fun i -> i) in
     let seg i =
       let ni = nat_of_int i in
@@ -73,7 +81,7 @@ let case_line line =
          | None -> "0")
       else "-" in
     let fullres = if mode = "S" && not (zeq dimmax minus_one) then begin
-        let full = barcode (normalize minus_one ops) in
+        let full = barcode_memo (zs minus_one ^ ops_part line) (normalize minus_one ops) in
         let keep l = List.filter (fun ((k, _), _) -> dim_kept dimmax k) l in
         if same_multiset (List.map bar_str (keep full)) (List.map bar_str (keep bs)) then "1" else "0" end
       else "-" in
